@@ -50,6 +50,12 @@ def main():
             if src:
                 shutil.copy(patch, d + '/patch.diff'); shutil.copy(demo, d + '/demo.py')
             m = json.load(open(meta))
+            prev = json.load(open(d + '/meta.json')) if os.path.exists(d + '/meta.json') else {}
+            for k in ('first_quick_run', 'strengthening'):
+                if k in prev:
+                    m[k] = prev[k]
+            if tier == 'quick':
+                m.setdefault('first_quick_run', 'detected' if detected else 'missed')
             m.update({'property': pid, 'confirmed': {'applies_to': sh('git -C /repo rev-parse --short HEAD').stdout.strip(),
                                                      'repository_tests': tests, 'demo_exit_on_unchanged_tree': clean.returncode,
                                                      'demo_exit_with_change': bad.returncode},
